@@ -276,6 +276,46 @@ CHECKS["C23"] = dict(
     technique="TLA+ schedule state machine + TLC-enumerated histories replayed on real schedules + TLC validation of generated code",
     design_ref="DESIGN.md section 4 C23", engine="LFRicSched")
 
+CHECKS["C01"] = dict(
+    level="model_checking",
+    text=("654 generated programs (SELECT CASE incl. ranges/default/logical selectors, WHERE/ELSEWHERE incl. "
+          "nested, strided and non-unit-lower-bound sections, array notation, intrinsics with DIM/MASK, DO/DO "
+          "WHILE/EXIT/CYCLE, IF chains, expressions, module-procedure calls) exist as pv-ast P whose meaning "
+          "FortranSem.tla gives directly (P never passes through PSyclone); a fully parenthesising renderer "
+          "gives the text PSyclone reads. TLC (SemRoundTrip.tla) runs P, the export after reading (P1) and "
+          "the export after writing and re-reading (P2) on every input: Reader/Writer SameObservable and "
+          "NoNewUndefined, plus status clauses (no internal error, written text readable, declarations kept)."),
+    note=SEM_NOTE + " 'Compiles' is approximated by the written text being read back. A gfortran anchor "
+         "(c01_anchor.py) compares FortranSem with gfortran on a sample of the family.",
+    technique=SEM_TECH, design_ref="DESIGN.md section 4 C01", engine="FortranSem")
+CHECKS["C15"] = dict(
+    level="model_checking",
+    text=("TreeCopy.tla: abstract programs (scoping nodes with tables, symbols whose properties use other "
+          "symbols - kind, shape, initial value, interface - and nodes that use symbols) with Copy "
+          "(parameterised by the roles it re-points) and edits (rename, add, remove, detach, insert, change "
+          "shape/kind, in-place reference and intent edits); invariants EqualAfterCopy, NoSharedNode, "
+          "OwnSymbols, OtherRenderUnchanged; three deliberately broken Copy variants are refuted (vacuity). "
+          "TLC enumerates 40k histories (copy target + <= 2 edits) over three real programs; each is replayed "
+          "on REAL PSyIR trees and the recorded observations (writer text, ==, node/symbol identities reached "
+          "through every use) are validated by TLC with the same operators."),
+    note=("Trusted: projection of real trees (c15_world.py). Depth 2 histories. Four genuine defect shapes in "
+          "findings.d/C15.json."),
+    technique="TLA+ copy/edit model + TLC-enumerated histories replayed on real trees + TLC validation",
+    design_ref="DESIGN.md section 4 C15", engine="TreeCopy")
+CHECKS["C24"] = dict(
+    level="model_checking",
+    text=("InvokeBinding.tla: canonical argument texts, Agree (alg actuals = PSy dummies in count and order; "
+          "every kernel argument is computed from the dummy whose actual denotes the same data object), "
+          "NameDefined, a TLA+ generator of invoke shapes (repeated, case-varied, spaced, indexed, "
+          "derived-type and literal arguments, named/unnamed) and a reference generator with configurable "
+          "de-duplication keys (mismatched keys are refuted). 567 shapes (every 3rd of 1701) are rendered to "
+          "real LFRic and GOcean algorithm files, run through the real generate() (Alg class path and PSyIR "
+          "algorithm layer), both generated texts are itemised and TLC decides the clauses per invoke."),
+    note=("Trusted: itemisers of the generated algorithm and PSy text (unsupported counted). Four genuine defect "
+          "shapes in the PSyIR-based algorithm layer, findings.d/C24.json."),
+    technique="TLA+ binding spec + TLC-enumerated input family + TLC validation of both generated layers",
+    design_ref="DESIGN.md section 4 C24, F.10", engine="InvokeBinding")
+
 NOT_YET = {}
 
 ALL = [f"C{i:02d}" for i in range(1, 30)]
